@@ -90,8 +90,10 @@ def run(ctx):
         tfiles.append((nlog, os.path.join(r["dir"], "fri_terms.json")))
     jobs = []
     main_terms = [t for n, t in tfiles if n == max(nlogs)][0]
-    for n, t in tfiles:
-        jobs.append({"terms": t, "part": "subgroup", "shard": 0, "nshards": 1})
+    # the subgroup points of all domain sizes in one process, sizes in descending and then ascending order (a root of unity or a
+    # power table remembered from another size must not leak)
+    by_size = [t for n, t in sorted(tfiles, reverse=True)]
+    jobs.append({"terms": by_size[0], "more_terms": by_size[1:] + by_size[::-1], "part": "subgroup", "shard": 0, "nshards": 1})
     nsh = 6
     for i in range(nsh):
         jobs.append({"terms": main_terms, "part": "fold", "nrandom": 12 if thorough else 2, "shard": i, "nshards": nsh})
